@@ -1,4 +1,5 @@
 """C18 - parse calls are isolated from each other."""
+import re
 import gc
 import random
 import sys
@@ -162,6 +163,23 @@ def run(tier, seed, lean):
     v, n = family_histories(tier, seed, rng)
     violations += v
     evals += n
+    # inline Python that builds a stateful function: it is evaluated when the rule runs, in every call (nothing made by one call
+    # is there for the next)
+    sm, _ = realrun.compile_grammar('```\nimport itertools\ndef numberer():\n    c = itertools.count(1)\n    return lambda ws: [(next(c), w) for w in ws]\n```\n'
+                                    'start = Line\nLine = (Word // / +/) |> `numberer()`\nWord = /[a-z]+/ |> `lambda w, seen=[]: (w, len(seen), seen.append(w))[:2]`\n')
+    outs = []
+    for text in ('ab cd', 'ab cd', 'ab !', 'ab cd'):
+        evals += 1
+        try:
+            outs.append(repr(sm.parse(text)))
+        except Exception as exc:      # noqa: BLE001
+            outs.append(type(exc).__name__)
+    # the numbering made by `numberer()` starts afresh in every call (the default-argument list of the other lambda is the
+    # user's own shared state and is not compared)
+    nums = [re.findall(r'\((\d+), ', o) for o in outs]
+    if nums[0] != ['1', '2'] or nums[1] != ['1', '2'] or nums[3] != ['1', '2']:
+        violations.append({'key': 'stateful-function', 'sig': 'stateful-function', 'kind': 'spec', 'seed': seed,
+                           'what': f'a function built by inline Python (`numberer()`) keeps its state between calls: numbers of four calls {nums}'})
     # an object of the unfinished outer parse that travels through a nested parse (as the argument of a class with parameters)
     # keeps the position it has in the outer text
     gm, _ = realrun.compile_grammar('start = /\\s*/ >> (Word |> `lambda w: Holder.parse(w)("qqqqqqqqqqqq")`)\nclass Word { v: /[a-z]+/ }\n'
@@ -280,12 +298,13 @@ def later_grammars(seed):
     name = f'c18_named_{seed}'
     first, _ = realrun.compile_grammar(f'grammar {name}\nstart = ["let", Word, Number]\nWord = /[a-z]+/\nNumber = /[0-9]+/ |> `int`\nignore / +/\n')
     inputs = ['let x 12', 'let x', 'x 12', 'let  abc 7']
-    before = [call(first, '__module__', t, 0, True) for t in inputs] + [call(first, 'Number', '7', 0, True)]
+    rule_entries = lambda m: [call(m, 'start', t, 0, True) for t in inputs] + [call(m, 'Word', 'ab', 0, True)]       # noqa: E731
+    before = [call(first, '__module__', t, 0, True) for t in inputs] + [call(first, 'Number', '7', 0, True)] + rule_entries(first)
     child, _ = realrun.compile_grammar(f'grammar {name}_child extends {name}\nNumber = /[0-9]+/ |> `lambda s: -int(s)`\n')
     child_before = [call(child, '__module__', t, 0, True) for t in inputs]
     # the name is reused for a different grammar
     second, _ = realrun.compile_grammar(f'grammar {name}\nstart = ["LET", Word]\nWord = /[A-Z]+/\nNumber = /[0-9]+/ |> `lambda s: -int(s)`\n')
-    after = [call(first, '__module__', t, 0, True) for t in inputs] + [call(first, 'Number', '7', 0, True)]
+    after = [call(first, '__module__', t, 0, True) for t in inputs] + [call(first, 'Number', '7', 0, True)] + rule_entries(first)
     child_after = [call(child, '__module__', t, 0, True) for t in inputs]
     n += 2 * len(inputs) + 2
     if after != before:
@@ -296,6 +315,11 @@ def later_grammars(seed):
         k = next(i for i in range(len(child_after)) if child_after[i] != child_before[i])
         bad.append({'key': 'later|child', 'sig': 'later-grammars', 'kind': 'spec',
                     'what': f'reusing the name of its parent altered an existing derived module: {child_before[k]} became {child_after[k]}'})
+    # what Grammar() makes of a description does not depend on what was compiled under the names of its ancestors before
+    from props import c13
+    b2, n2 = c13.name_reuse_scenarios(f'c18nr{seed}', realrun)
+    bad += [dict(x, sig='later-grammars') for x in b2]
+    n += n2
     # the same with a dotted name (installed as a package entry)
     dn = f'c18pkg{seed}.lang'
     d1, _ = realrun.compile_grammar(f'grammar {dn}\nstart = Word // ","\nWord = /[a-z]+/\n')
